@@ -67,14 +67,16 @@ def classify(word: str) -> str:
         return "marker"
     chars = set(word)
     if chars <= _DIGITS:
-        return "int" if word[0] != "0" else "int0"
+        # documented INT = [1-9]{[0-9]}*; a bare 0 is used by the shipped relaxed.txt (CUTOFF 0)
+        return "int" if (word[0] != "0" or word == "0") else "int0"
     if chars <= _ID_REST:
         if word in RESERVED_IDS:
             return "text"
-        if word[0] in _ID_FIRST:
-            return "id"
+        # the module docstring writes ID = [a-zA-Z]{[a-zA-Z0-9_-]}*, the docstring of
+        # is_legal_identifier (and the shipped rule files: '2-Hacid_dh_C') allow any of these
+        # characters as long as one letter is present
         if chars & _ID_FIRST:
-            return "id?"
+            return "id"
         return "text"
     return "text"
 
